@@ -191,7 +191,7 @@ func runIsolated(c Case) []ev.Finding {
 	tmp.Close()
 	start := time.Now()
 	cmd := exec.Command(os.Args[0], "--replay", tmp.Name())
-	cmd.Env = append(os.Environ(), "VERIF_C08_CHILD=1", "VERIF_NO_EVIDENCE=1")
+	cmd.Env = append(os.Environ(), "VERIF_C08_CHILD=1", "VERIF_NO_EVIDENCE=1", "VERIF_WORKER=") // the child reports on its own, not as a shard of this run
 	var outb bytes.Buffer
 	cmd.Stdout = &outb
 	cmd.Stderr = &outb
@@ -206,11 +206,16 @@ func runIsolated(c Case) []ev.Finding {
 	case err := <-done:
 		text := outb.String()
 		if err == nil {
+			if strings.Contains(text, "KNOWN-FINDING:") {
+				// a listed finding (the child exits 0): re-run in process
+				// so that this run records and prints it too
+				return run(expand(c))
+			}
 			return nil
 		}
 		if strings.Contains(text, "VIOLATION") {
 			// ordinary (recovered) finding: re-run in process to get it
-			return run(c)
+			return run(expand(c))
 		}
 		kind := "process-death"
 		if strings.Contains(text, "stack overflow") || strings.Contains(text, "goroutine stack exceeds") {
@@ -292,6 +297,9 @@ func expand(c Case) Case {
 			c.Input = b.String()
 		case "call-wide-array":
 			c.Input = "pipeline P(in int[] x, out int y,){ return (y = 1,) }\ncall P(x = [" + strings.Repeat("1,", n) + "1],)"
+		case "type-dims":
+			// a parameter type with n array dimensions
+			c.Input = "stage S(\n    in  int" + strings.Repeat("[]", n) + " x,\n    src py \"s\",\n)\n"
 		case "layered-pipelines":
 			// a tower of pipelines, each calling the one below twice under
 			// two ids: 2^n call paths from a source that is linear in n
@@ -412,7 +420,7 @@ func main() {
 		}
 		r.Rule = fmt.Sprintf("(A1) every token sequence of length <=%d over an %d-token alphabet (keywords, punctuation, numeric edge literals around 64-bit limits, every string escape form, invalid UTF-8) through ParseSourceBytes, UncheckedParse, ParseValExp and FormatSrcBytes; "+
 			"(A2) for every .mro file of the repository's fixtures: every single-token deletion, duplication, every byte-prefix truncation (step 7 bytes in quick), every replacement of a token by each alphabet token (files <= 3 KB); "+
-			"(A3) every string slot x {empty, blank, quote, backslash, newline, NUL} and numeric slot x edge list; (A4) nesting / size series 10..10^5 in isolated subprocesses, among them a tower of 10 / 100 pipelines each calling the one below twice under two ids (2^n call paths); (A7) growth: ten wide input shapes (array / map literal on one line and one element per line, thousands of stages on one line and on separate lines, comments, a long string, many parameters) parsed at size n and 4n - the larger may take at most 12 times as long (best of 3-5 runs each; only judged when it needs more than three seconds); (A5) include graphs (self, 2- and 3-cycles with and without declarations, diamond, missing, nested dirs); (A6) call structure through what mro check does (compile, then the call graph of the top-level call): cycles of 1-3 pipelines with and without inputs and top-level call, and every top-level call form {call, map call, local, preflight, volatile} x callee {stage, pipeline, undefined, a struct} x 13 binding forms (wildcards, self and call references, splits, duplicates, unknown and missing parameters) and modifiers. "+
+			"(A3) every string slot x {empty, blank, quote, backslash, newline, NUL} and numeric slot x edge list; (A4) nesting / size series 10..10^5 in isolated subprocesses, among them a tower of 10 / 100 pipelines each calling the one below twice under two ids (2^n call paths) and a parameter type with 10 .. 32768 array dimensions; (A7) growth: ten wide input shapes (array / map literal on one line and one element per line, thousands of stages on one line and on separate lines, comments, a long string, many parameters) parsed at size n and 4n - the larger may take at most 12 times as long (best of 3-5 runs each; only judged when it needs more than three seconds); (A5) include graphs (self, 2- and 3-cycles with and without declarations, diamond, missing, nested dirs); (A6) call structure through what mro check does (compile, then the call graph of the top-level call): cycles of 1-3 pipelines with and without inputs and top-level call, and every top-level call form {call, map call, local, preflight, volatile} x callee {stage, pipeline, undefined, a struct} x 13 binding forms (wildcards, self and call references, splits, duplicates, unknown and missing parameters) and modifiers. "+
 			"violation = panic, process death, no result in 90 s, or an error without a source position. distinct = distinct (entry point, input); non-trivial = input is not accepted", maxLen, len(alphabet))
 		r.Set("alphabet", len(alphabet))
 		r.RunWorkers(0)
@@ -658,10 +666,13 @@ call P(m = [%s, 1],)`,
 	if r.Thorough() {
 		sizes = append(sizes, 1000000)
 	}
-	for _, gen := range []string{"brackets", "maps", "call-brackets", "parens", "comment-lines", "long-string", "many-params", "struct-chain", "layered-pipelines"} {
+	for _, gen := range []string{"brackets", "maps", "call-brackets", "parens", "comment-lines", "long-string", "many-params", "struct-chain", "layered-pipelines", "type-dims"} {
 		for _, n := range sizes {
 			if gen == "struct-chain" && n > 10000 {
 				continue
+			}
+			if gen == "type-dims" && n == 100000 {
+				n = 32768 // the array dimension count is a 16-bit integer
 			}
 			if gen == "layered-pipelines" && n > 100 {
 				continue // no top-level call: only the declarations are compiled
